@@ -11,6 +11,7 @@ from .. import docmodel
 from ..channels import draw_read_channel, read_via
 from ..core import Prop, Result
 from ..simfs import SimFS, Policy
+from ..swarm import neutral_read_kw, fix_kw
 
 UNITS = ["M", "US/F", "", "OHMM"]
 
@@ -134,6 +135,7 @@ class C07(Prop):
             g.shuffle(tail)
             sc["names"] = ["DEPT"] + tail
         sc["case"] = g.choice(["upper", "upper", "lower", "preserve"])
+        sc["nkw"] = neutral_read_kw(g)
         sc["cellfmt"] = g.choice(["%d", "%d", "%.1f", "%.3f"])
         sc["vers"] = g.choice([1.2, 2.0])
         sc["params"] = g.random() < 0.3
@@ -151,7 +153,7 @@ class C07(Prop):
         fs = SimFS(policy=Policy.from_json(sc["policy"]))
         with fs:
             try:
-                las = read_via(fs, text, sc["channel"], {"engine": sc["engine"], "mnemonic_case": sc.get("case", "upper")}, tag="c07")
+                las = read_via(fs, text, sc["channel"], fix_kw(dict(sc.get("nkw") or {}, engine=sc["engine"], mnemonic_case=sc.get("case", "upper"))), tag="c07")
             except Exception as e:
                 res.count("read-raised:" + type(e).__name__)
                 res.skipped = "read raised %s (the statement speaks of successful reads)" % type(e).__name__
